@@ -282,4 +282,5 @@ JobsForT(p) ==
      [] p = "C14" -> Jobs_C14 [] p = "C19" -> Jobs_C19 [] p = "C20" -> Jobs_C20 \o Jobs_C20F
      [] p = "C05" -> Jobs_C05 [] p = "C16" -> Jobs_C16 [] p = "C17" -> Jobs_C17 [] p = "C07" -> Jobs_C07
      [] p = "X01" -> Jobs_X01 [] p = "X02" -> Jobs_X02 [] p = "X03" -> Jobs_X03 [] p = "X04" -> Jobs_X04
+     [] p = "X05" -> <<Call("floor", <<"fx">>, <<Lowestv>>), Call("floor", <<"fx">>, <<NegNaN>>)>>     \* the programs come from FxClosureGen (tlc -simulate)
 =============================================================================
